@@ -219,10 +219,8 @@ func scenarioC12(r *Run) {
 		r.FailSig("handshake-on-clean-path", "", "%s: handshake failed on a clean path: %v", out, hsErr)
 		return
 	}
-	var srv net.Conn
-	select {
-	case srv = <-accepted:
-	default:
+	srv := serverConnFor(accepted, dc)
+	if srv == nil {
 		r.Fail("world-setup", "server did not accept the session")
 		return
 	}
